@@ -49,6 +49,23 @@ def fe(bs, sizes, tiers):
 _FE_Q = [(1, 1), (2, 1), (1, 2), (2, 3), (4,)]
 _FE_T = [(a, b) for a in (1, 2, 3, 4) for b in (1, 2, 3, 4) if a + b <= 5 and (a, b) not in _FE_Q] + [(1, 1, 1), (1, 2, 2), (2, 2, 1), (5,), (3,)]
 OBLIGATIONS += [fe(2, s, ["quick", "thorough"]) for s in _FE_Q] + [fe(2, s, ["thorough"]) for s in _FE_T] + [fe(3, (2, 2), ["thorough"]), fe(3, (3, 4), ["thorough"]), fe(3, (1, 5), ["thorough"])]
+import itertools as _it
+def dirrt(lens, tiers, timeout=400):
+    ne = len(lens); nl = max(lens)
+    L = list(lens) + [1] * (4 - ne)
+    inode_sizes = set()
+    for starts in _it.product((0, 1), repeat=ne - 1):
+        st = (1,) + starts
+        inode_sizes.add(64 + sum(12 + lens[i] for i in range(ne) if st[i]))
+    sizes = sorted(set([32 + l for l in lens] + [32, 64] + [8 + l + 1 for l in lens]) | inode_sizes)
+    return dict(name="dir_write_read_roundtrip_len%s" % "".join(str(l) for l in lens), harness="harness/C01_dirroundtrip.c",
+        sources=["lib/sqfs/src/readdir.c", "lib/util/src/alloc.c", "lib/util/src/array.c"], included_sources=["lib/sqfs/src/dir_writer.c"],
+        pre_include=["stubs/vp_alloc_sizes.h"], defines=dict(NE=ne, NL=nl, L0=L[0], L1=L[1], L2=L[2], L3=L[3], VP_ALLOC_SIZES=",".join(str(x) for x in sizes)),
+        unwind=max(12 + nl + 2, len(sizes) + 2), unwindset={'sqfs_dir_writer_end.0': ne + 1, 'sqfs_dir_writer_end.1': ne + 1, 'get_conseq_entry_count.0': ne + 1,
+                   'writer_reset.0': 2, 'writer_reset.1': 2, 'sqfs_dir_writer_create_inode.0': ne + 1, 'sqfs_dir_writer_create_inode.1': ne + 1}, tiers=tiers, timeout=timeout,
+        reach=["roundtrip"], functions=["sqfs_dir_writer_begin/add_entry/end/create_inode (lib/sqfs/src/dir_writer.c)", "sqfs_readdir_state_init, sqfs_meta_reader_readdir, sqfs_meta_reader_read_dir_header, sqfs_meta_reader_read_dir_ent (lib/sqfs/src/readdir.c)"],
+        bound="%d entries with name lengths %s (name bytes symbolic), symbolic inode numbers, inode references, types; listing in one metadata block" % (ne, list(lens)))
+OBLIGATIONS += [dirrt((1,), ["quick", "thorough"]), dirrt((2, 1), ["quick", "thorough"]), dirrt((1, 2, 1), ["thorough"], 2400)]
 OBLIGATIONS.append(dict(name="packfile_keywords", harness="harness/C01_packfile.c",
     sources=["lib/util/src/parse_int.c", "lib/util/src/canonicalize_name.c", "lib/util/src/split_line.c", "lib/util/src/alloc.c"], stubs=["stubs/vp_ctype.c", "stubs/vp_sysmacros.c"],
     included_sources=["bin/gensquashfs/src/fstree_from_file.c"], incdirs=["bin/gensquashfs/src"], unwind=12, tiers=["quick", "thorough"], timeout=300, reach=["done"],
